@@ -50,13 +50,79 @@ def fresh_depth(e):
     return 0
 
 
-def check_private_copy(repo, rep, rule, ce, why):
-    """get_db of both tables registers a value whose fresh depth covers every mutable level of MASTER_DB."""
+class _T:
+    def __init__(self, name):
+        self.name = name
+
+    def __repr__(self):
+        return self.name
+
+    def __deepcopy__(self, memo):
+        return self
+
+
+def registry_run(repo, modname, cls_name, method, registry, ident='T1'):
+    """Interpret get_db / thread_exit of a table class on a given registry content.  -> (registry afterwards, returned value)"""
+    from sa.listinterp import Interp
+    from sa.abseval import Unknown
+    f = repo.func(modname, '%s.%s' % (cls_name, method))
+    master = _T('<MASTER_DB>')
+    reg = dict(registry)
+    env = {'%s.DB_PER_THREAD' % cls_name: reg, 'cls.DB_PER_THREAD': reg, '%s.MASTER_DB' % cls_name: master, 'cls.MASTER_DB': master}
+
+    def hook(call, e, interp):
+        t = unparse(call.func)
+        if t in ('threading.get_ident', 'get_ident') and not call.args:
+            return (True, ident)
+        if t in ('copy.deepcopy', 'deepcopy') and len(call.args) == 1:
+            return (True, ('deepcopy', interp.value(call.args[0], e)))
+        return None
+    try:
+        finals = Interp(call_hook=hook).run(f.body, env)
+    except Unknown as ex:
+        raise AnalysisError('%s.%s cannot be interpreted: %s' % (cls_name, method, ex))
+    if len(finals) != 1 or finals[0].get('<forks>') or finals[0].get('<outcome>') == 'raise':
+        raise AnalysisError('%s.%s does not evaluate on a single path (forks %s)' % (cls_name, method, [x.get('<forks>') for x in finals][:2]))
+    return finals[0]['%s.DB_PER_THREAD' % cls_name], finals[0].get('<return>'), master
+
+
+def check_registry(repo, rep, rule, why_shared):
+    """The per-thread registry, by interpretation: the first get_db() of a thread registers a deep copy of MASTER_DB under the thread's identity and returns
+    that very object; later calls return it again without copying; another thread gets its own entry; thread_exit() removes the caller's entry only."""
     n = 0
     for cls_name, modname in (('SSH2_KexDB', 'ssh2_kexdb'), ('SSH1_KexDB', 'ssh1_kexdb')):
         gd = repo.func(modname, cls_name + '.get_db')
-        rep.saw(gd)
+        te = repo.func(modname, cls_name + '.thread_exit')
+        rep.saw(gd), rep.saw(te)
+        reg, ret, master = registry_run(repo, modname, cls_name, 'get_db', {})
+        ok = list(reg) == ['T1'] and reg['T1'] is ret
+        rep.check(rule, '%s.get_db: first call registers one table under threading.get_ident() and returns it' % cls_name, ok, gd,
+                  '%s.get_db on an empty registry leaves %r and returns %r: the table a scan edits is not the one registered for its thread (%s)' % (cls_name, reg, ret, why_shared), stmt='%s registry: first call' % cls_name)
+        deep = ret == ('deepcopy', master)
+        s1, s2 = _T('<table of T1>'), _T('<table of T2>')
+        reg, ret, _m = registry_run(repo, modname, cls_name, 'get_db', {'T1': s1})
+        rep.check(rule, '%s.get_db: later calls of the same thread return the registered table' % cls_name, reg == {'T1': s1} and ret is s1, gd,
+                  '%s.get_db with a table already registered leaves %r and returns %r: measured notes written earlier in the scan are lost or another table is rated' % (cls_name, reg, ret), stmt='%s registry: second call' % cls_name)
+        reg, ret, _m = registry_run(repo, modname, cls_name, 'get_db', {'T1': s1}, ident='T2')
+        rep.check(rule, '%s.get_db: another thread gets its own entry' % cls_name, list(reg) == ['T1', 'T2'] and reg['T1'] is s1 and ret is reg['T2'] and ret is not s1, gd,
+                  '%s.get_db called by a second thread leaves %r and returns %r: two scans share a table (%s)' % (cls_name, reg, ret, why_shared), stmt='%s registry: second thread' % cls_name)
+        reg, ret, _m = registry_run(repo, modname, cls_name, 'thread_exit', {'T1': s1, 'T2': s2})
+        rep.check(rule, '%s.thread_exit removes the calling thread\'s table only' % cls_name, reg == {'T2': s2}, te, '%s.thread_exit leaves %r of {T1, T2}: a re-used thread identity inherits the notes of a finished scan, or another scan loses its table' % (cls_name, reg), stmt='%s registry: exit' % cls_name)
+        reg, ret, _m = registry_run(repo, modname, cls_name, 'thread_exit', {'T2': s2})
+        rep.check(rule, '%s.thread_exit without a registered table is a no-op' % cls_name, reg == {'T2': s2}, te, '%s.thread_exit without an own table leaves %r' % (cls_name, reg), stmt='%s registry: exit without table' % cls_name)
+        n += 5
+        yield cls_name, modname, gd, deep
+
+
+def check_private_copy(repo, rep, rule, ce, why):
+    """get_db of both tables registers a value whose fresh depth covers every mutable level of MASTER_DB."""
+    n = 0
+    for cls_name, modname, gd, deep in check_registry(repo, rep, rule, why):
         need = mutable_depth(ce.lookup(modname, cls_name + '.MASTER_DB'))
+        if deep:
+            n += 1
+            rep.ob(rule, '%s.get_db hands out copy.deepcopy(MASTER_DB): fresh on all %d mutable levels' % (cls_name, need), True, sample={'rule': rule, 'table': cls_name, 'mutable_levels': need, 'fresh_levels': 'all'})
+            continue
         stores = [s for s in walk_no_nested(gd) if isinstance(s, ast.Assign) and isinstance(s.targets[0], ast.Subscript) and unparse(s.targets[0].value) == cls_name + '.DB_PER_THREAD']
         if len(stores) != 1:
             raise AnalysisError('%s.get_db: expected one store into the per-thread registry, found %d' % (cls_name, len(stores)))
